@@ -191,9 +191,28 @@ def any_decls(tier='quick') -> List[Decl]:
     return out
 
 
+def unchecked_decls(tier='quick') -> List[Decl]:
+    out = []
+    for t in ['i32', 'u64']:
+        bl, n1 = aux.sym_bound('lo', t)
+        out.append(mk('unck_%s_flag' % t, 'int', t, validators=[Validator('greater', bl)], aux=[n1], new_unchecked=True,
+                      derives=['Debug', 'TryFrom', 'AsRef'], props=['C05']))
+        out.append(mk('unck_%s_flag_const' % t, 'int', t, validators=[Validator('greater', aux.lit_bound(1, t))], new_unchecked=True, const_fn=True,
+                      derives=['Debug', 'TryFrom', 'AsRef'], props=['C05']))
+        out.append(mk('unck_%s_noflag' % t, 'int', t, validators=[Validator('greater', bl)], aux=[n1],
+                      derives=['Debug', 'TryFrom', 'AsRef'], props=['C05']))
+    out.append(mk('unck_str_flag', 'string', 'String', sanitizers=[Sanitizer('trim')], validators=[Validator('not_empty')], new_unchecked=True,
+                  derives=['Debug', 'TryFrom', 'AsRef'], props=['C05']))
+    p, pn = aux.custom('pred', 'point')
+    out.append(mk('unck_point_flag', 'any', 'Point', validators=[Validator('predicate', fn=p)], aux=['Point', pn], new_unchecked=True,
+                  derives=['Debug', 'TryFrom', 'AsRef'], props=['C05']))
+    out.append(mk('unck_nov_flag', 'int', 'i16', new_unchecked=True, derives=['Debug', 'From', 'AsRef'], props=['C05']))
+    return out
+
+
 def verus_catalogue(tier='quick', seed=0) -> List[Decl]:
     from .spellings import string_spellings
-    return int_decls(tier) + string_decls(tier) + any_decls(tier) + string_spellings(tier)
+    return int_decls(tier) + string_decls(tier) + any_decls(tier) + string_spellings(tier) + unchecked_decls(tier)
 
 
 def all_decls(tier='thorough', seed=0):
